@@ -182,9 +182,9 @@ Definition denote_link (l : plink) : option (list Z) :=
   match l with
   | LinkInt z => if (0 <=? z) && (z <=? 255) then Some [z] else None
   | LinkStr s =>
-      if isdigit s then
+      if isdigit s then                      (* a decimal slot number (at most 4300 digits, as for int()) *)
         match digits_val s 0 with
-        | Some z => if z <=? 255 then Some [z] else None
+        | Some z => if (z <=? 255) && (len s <=? 4300) then Some [z] else None
         | None => None
         end
       else if dotted_quad s then Some s else None
